@@ -126,7 +126,66 @@ def noop(tree):
     return n
 
 
-KINDS = {"rename": rename_locals, "logmsg": logmsg, "docpass": docpass, "noop": noop}
+def rettemp(tree):
+    """`return <call / expression>` becomes `result_rt = <...>; return result_rt` (introduce explaining variable)"""
+    n = 0
+    for fn in [x for x in ast.walk(tree) if isinstance(x, (ast.FunctionDef, ast.AsyncFunctionDef))]:
+        if any(isinstance(x, (ast.Yield, ast.YieldFrom)) for x in _walk_scope(fn)):
+            pass
+        for holder in [fn] + [x for x in _walk_scope(fn)]:
+            for fld in ("body", "orelse", "finalbody"):
+                body = getattr(holder, fld, None)
+                if not (isinstance(body, list) and body and isinstance(body[0], ast.stmt)) or isinstance(holder, ast.ClassDef):
+                    continue
+                new = []
+                for st in body:
+                    if isinstance(st, ast.Return) and st.value is not None and not isinstance(st.value, (ast.Constant, ast.Name)):
+                        new.append(ast.Assign([ast.Name("result_rt", ast.Store())], st.value))
+                        new.append(ast.Return(ast.Name("result_rt", ast.Load())))
+                        n += 1
+                    else:
+                        new.append(st)
+                setattr(holder, fld, new)
+            if isinstance(holder, ast.Try):
+                for h in holder.handlers:
+                    new = []
+                    for st in h.body:
+                        if isinstance(st, ast.Return) and st.value is not None and not isinstance(st.value, (ast.Constant, ast.Name)):
+                            new.append(ast.Assign([ast.Name("result_rt", ast.Store())], st.value))
+                            new.append(ast.Return(ast.Name("result_rt", ast.Load())))
+                            n += 1
+                        else:
+                            new.append(st)
+                    h.body = new
+    return n
+
+
+def ifflip(tree):
+    """`if c: A else: B` (no elif) becomes `if not c: B else: A`"""
+    n = 0
+    for node in ast.walk(tree):
+        if isinstance(node, ast.If) and node.orelse and not (len(node.orelse) == 1 and isinstance(node.orelse[0], ast.If)):
+            # leave elif chains alone (the if under an else of an elif chain is itself an `elif`)
+            par_else = False
+            node.test = node.test.operand if (isinstance(node.test, ast.UnaryOp) and isinstance(node.test.op, ast.Not)) else ast.UnaryOp(ast.Not(), node.test)
+            node.body, node.orelse = node.orelse, node.body
+            n += 1
+    return n
+
+
+def eqswap(tree):
+    """`a == b` becomes `b == a` (also !=) when both sides are names / attributes / constants"""
+    n = 0
+    simple = (ast.Name, ast.Attribute, ast.Constant)
+    for node in ast.walk(tree):
+        if isinstance(node, ast.Compare) and len(node.ops) == 1 and isinstance(node.ops[0], (ast.Eq, ast.NotEq)) \
+                and isinstance(node.left, simple) and isinstance(node.comparators[0], simple):
+            node.left, node.comparators[0] = node.comparators[0], node.left
+            n += 1
+    return n
+
+
+KINDS = {"rename": rename_locals, "logmsg": logmsg, "docpass": docpass, "noop": noop, "rettemp": rettemp, "ifflip": ifflip, "eqswap": eqswap}
 
 
 def overlay_for(files, kind):
@@ -138,8 +197,11 @@ def overlay_for(files, kind):
         src = open(p, encoding="utf-8").read()
         tree = ast.parse(src)
         if KINDS[kind](tree):
-            new = ast.unparse(ast.fix_missing_locations(tree)) + "\n"
-            compile(new, rel, "exec")
+            try:
+                new = ast.unparse(ast.fix_missing_locations(tree)) + "\n"
+                compile(new, rel, "exec")
+            except Exception:
+                continue
             out[rel] = new
     return out
 
